@@ -1079,6 +1079,12 @@ func propC06(r *Run, w *World) {
 				if Term(a[0]) == "buf" && strings.HasPrefix(Term(a[1]), fmt.Sprintf("*[%d]byte(unsafe.Pointer(&local.", hdrSize)) {
 					okH = true
 				}
+				// the same image through a pointer receiver
+				if Term(a[0]) == "buf" && len(fn.Params) > 0 && strings.HasPrefix(Term(a[1]), fmt.Sprintf("*[%d]byte(unsafe.Pointer(p0))", hdrSize)) {
+					if _, isPtr := fn.Params[0].Type().Underlying().(*types.Pointer); isPtr {
+						okH = true
+					}
+				}
 				if Term(a[0]) == fmt.Sprintf("buf[%d:]", hdrSize) && strings.HasSuffix(Term(a[1]), ".Buf") {
 					okB = true
 				}
@@ -1533,6 +1539,10 @@ func propC13(r *Run, w *World) {
 					okHdr = true
 				}
 				if strings.HasPrefix(g, "uint32(len(p0[1040:])) >= ") && strings.HasSuffix(g, ".BufLen") {
+					okLen = true
+				}
+				// the same comparison written the other way round
+				if strings.HasSuffix(g, ".BufLen <= uint32(len(p0[1040:]))") {
 					okLen = true
 				}
 			}
